@@ -1,5 +1,7 @@
 import BSEModel.Printing
 import BSEGen.Writers
+import BSEProofs.Lemmas.NwchemRT
+import BSEProofs.Lemmas.NwchemEcp
 /-! # C04 — every writer emits every number of the basis, unrounded -/
 namespace BSE.Props.C04
 open BSE BSE.Printing BSE.Gen.Writers
@@ -161,5 +163,51 @@ theorem every_format_has_pipeline : writerMap.map (·.1) = pipelines.map (·.1) 
 
 example : tokens "  1.0   -2.5D+00 3".toList = ["1.0".toList, "-2.5D+00".toList, "3".toList] := by decide +kernel
 example : WordOk "1.0".toList := ⟨by decide, by decide⟩
+
+/-! ## (iv) one whole writer at token level: NWChem prints every primitive and every ECP term -/
+
+open BSE.Nwchem in
+/-- **NWChem electron section covers the basis**: for every element, every shell and every primitive `i` there is a
+row line holding exactly the exponent `i` followed by coefficient `i` of every contraction, in order -/
+theorem nwchem_writer_covers_shells {ν : Type} (T : Tables ν) (harm : Nwchem.Str) (els : List (Nat × List (EShell ν)))
+    (e : Nat × List (EShell ν)) (he : e ∈ els) (sh : EShell ν) (hsh : sh ∈ e.2)
+    (hr : Rect sh.exps.length sh.coefs) (i : Nat) (hi : i < sh.exps.length) :
+    Line.row (sh.exps[i] :: sh.coefs.filterMap (·[i]?)) ∈ electronLines T harm els := by
+  have hrect : Rect sh.exps.length (sh.exps :: sh.coefs) := by
+    intro c hc
+    rcases List.mem_cons.1 hc with rfl | h
+    · rfl
+    · exact hr c h
+  have hrow : (sh.exps[i] :: sh.coefs.filterMap (·[i]?)) ∈ zipStar (sh.exps :: sh.coefs) := by
+    rw [zipStar_closed (m := sh.exps :: sh.coefs) (by simp) hrect]
+    exact List.mem_map.2 ⟨i, List.mem_range.2 hi, by simp [List.filterMap_cons, List.getElem?_eq_getElem hi]⟩
+  unfold electronLines
+  apply List.mem_cons_of_mem
+  apply List.mem_append_left
+  exact List.mem_flatMap.2 ⟨e, he, List.mem_flatMap.2 ⟨sh, hsh, by
+    unfold shellLines
+    exact List.mem_cons_of_mem _ (List.mem_map.2 ⟨_, hrow, rfl⟩)⟩⟩
+
+open BSE.Nwchem in
+/-- **NWChem ECP section covers the ECP**: every term `(r exponent, gaussian exponent, coefficient)` of every potential
+of every element is a row line, and the electron count is on the element's `nelec` line -/
+theorem nwchem_writer_covers_ecp {ν : Type} (T : EcpTables ν) (els : List (Nat × Nwchem.Str × List (EPot ν)))
+    (e : Nat × Nwchem.Str × List (EPot ν)) (he : e ∈ els) :
+    Line.head [T.symOf e.1, "nelec".toList, e.2.1] ∈ ecpLines T els
+    ∧ ∀ p ∈ e.2.2, ∀ t ∈ p.terms, Line.row [t.1, t.2.1, t.2.2] ∈ ecpLines T els := by
+  unfold ecpLines
+  refine ⟨?_, ?_⟩
+  · apply List.mem_cons_of_mem
+    apply List.mem_append_left
+    exact List.mem_flatMap.2 ⟨e, he, by simp [ecpElementLines]⟩
+  · intro p hp t ht
+    apply List.mem_cons_of_mem
+    apply List.mem_append_left
+    refine List.mem_flatMap.2 ⟨e, he, ?_⟩
+    unfold ecpElementLines
+    apply List.mem_cons_of_mem
+    refine List.mem_flatMap.2 ⟨p, (mem_writeOrder e.2.2 p).2 hp, ?_⟩
+    unfold potLines
+    exact List.mem_cons_of_mem _ (List.mem_map.2 ⟨t, ht, rfl⟩)
 
 end BSE.Props.C04
